@@ -64,6 +64,12 @@ def configs(tier, seed):
     out = []
     for c in ps.configs(tier, 5, singles=False, bases=False, shapes=shapes(tier), geoms=geoms):
         out.append(dict(c, test="cover"))
+    if tier == "quick":
+        # representatives of the long-range diffuse/tight class (recorded finding F1, known_findings.json)
+        for la, lb, g, sp in ((5, 5, "far20z", [1, 1, 2, 1, 1, 0]), (4, 4, "far12x", [1, 1, 0, 1, 1, 2]),
+                              (5, 4, "far12x", [1, 1, 1, 1, 1, 1])):
+            out.append({"kind": "pair", "la": la, "lb": lb, "ta": "cartesian", "tb": "spherical", "geom": g,
+                        "shape": sp, "ic": None, "test": "cover"})
     lp = [(1, 3), (2, 0)] if tier == "quick" else [(la, lb) for la in range(6) for lb in range(6)]
     for la, lb in lp:
         out.append({"kind": "pair", "la": la, "lb": lb, "ta": "spherical", "tb": "cartesian", "geom": "generic",
@@ -92,6 +98,14 @@ def charge_call(o, g, shells, classes, tag, ref_all, diag_all, cls_index, pos):
     o.call()
     o.cmp("nuclear attraction == sum of slices " + tag, nuc, got.sum(axis=2), 1e-12, sc.sum(axis=2), key="nuc-sum")
     o.cmp("nuclear attraction vs reference " + tag, nuc, ref.sum(axis=2), TOL, sc.sum(axis=2), key="nuclear")
+
+
+def known_f1(cfg, shells):
+    """configuration class of the recorded finding F1 (see known_findings.json)"""
+    if cfg.get("kind") != "pair" or min(cfg["la"], cfg["lb"]) < 4 or cfg["geom"] not in ("far12x", "far20z", "far33y", "far"):
+        return False
+    ma, mb = min(shells[0].exps), min(shells[1].exps)
+    return min(ma, mb) <= 0.02 and max(ma, mb) >= 10 * min(ma, mb)
 
 
 def evaluate(cfg):
@@ -169,4 +183,8 @@ def evaluate(cfg):
         for r in range(1, 6):
             for sub in itertools.combinations(CLASSES, r):
                 charge_call(o, g, shells, list(sub), "subset", ref_all, diag_all, cls_index, pos)
+    if o.violations and known_f1(cfg, shells):
+        for v in o.violations:
+            if v.get("what") == "value" and v.get("margin", 1e9) <= 20 and v["key"] in ("point_charge", "point_charge-block", "nuclear"):
+                v["key"] = "known-F1/" + v["key"]
     return o
